@@ -130,6 +130,10 @@ def boundary_job(job):
 
     def fn(eng):
         sw = SymWave(eng, cls, c, 8, {0: vals[0], 1: vals[1]}, {})
+        for i in (0, 1):            # arbitrary left-overs of an earlier stimulus in the input waveform (finite times and sentinels)
+            loc = int(sw.w.c_locs[sw.w.ppi_offset + i])
+            for j, old in enumerate((T(0, z3.Real(f'old{i}_0')), T.lift(TMIN) if i else T(0, z3.Real(f'old{i}_1')), T(0, z3.Real(f'old{i}_2')), T.lift(TMAX_OVL))):
+                sw.w.c[loc + j, 0] = old
         sw.w.s_to_c()
         for i in (0, 1):
             loc = int(sw.w.c_locs[sw.w.ppi_offset + i])
@@ -335,7 +339,13 @@ def replay(data):
     if data['mode'] == 'boundary':
         nl = netlist.NL('b', [('a', 'in'), ('b', 'in'), ('z', 'out')], [('g', 'AND2', ['z'], ['a', 'b'])])
         c = netlist.build(nl, 'verilog')
-        w = concrete_wave(data['cls'], c, 8, {0: data['vals'][0], 1: data['vals'][1]}, {}, {}, {0: 1.5, 1: -2.25})
+        d0 = np.zeros((1, len(c.lines), 2, 2), dtype=np.float32)
+        w = CLS[data['cls']](c, d0, sims=1, c_caps=8)
+        for i, v in enumerate(data['vals']):
+            loc = int(w.c_locs[w.ppi_offset + i])
+            w.c[loc:loc + 4, 0] = [7.0, float(TMIN) if i else 9.0, 11.0, float(TMAX_OVL)]        # left-overs of an earlier stimulus
+            w.s[0, i, 0], w.s[2, i, 0] = VAL[v]; w.s[1, i, 0] = [1.5, -2.25][i]
+        w.s_to_c()
         for i in (0, 1):
             loc = int(w.c_locs[w.ppi_offset + i])
             prob, init, fin, term = decode_f([w.c[loc + j, 0] for j in range(4)])
